@@ -162,6 +162,11 @@ func (l *DList[T]) Delete(node *DoubleNode[T]) error {
 	// Check if the node to be deleted is the head node.
 	if head.Value == node.Value {
 		l.DoubleNode = *head.next
+		// The second node was copied into the list itself: it is the first one now.
+		l.prev = nil
+		if l.next != nil {
+			l.next.prev = &l.DoubleNode
+		}
 		return nil
 	}
 
